@@ -86,9 +86,14 @@ def good_domain(nel, nnodes):
     return nnodes % nel != 0 and nel % nnodes != 0
 
 
-def rand_domain(rng, want_good=True):
+def rand_domain(rng, want_good=True, large=False):
     for _ in range(200):
-        if rng.random() < 0.55:
+        if large:   # arrays of more than 2^13 single-precision values (payloads beyond 32 KiB / 64 KiB)
+            if rng.random() < 0.6:
+                nelx, nely, nelz = rng.randint(60, 110), rng.randint(85, 150), 0
+            else:
+                nelx, nely, nelz = rng.randint(14, 22), rng.randint(18, 24), rng.randint(20, 26)
+        elif rng.random() < 0.55:
             nelx, nely, nelz = rng.randint(1, 6), rng.randint(1, 5), 0
         else:
             nelx, nely, nelz = rng.randint(1, 4), rng.randint(1, 3), rng.randint(1, 3)
@@ -359,15 +364,15 @@ VTI_NAMES = ["out.vti", "out.vti", "out", "res.VTI", "a.b.vtix", "x.vtk", ".vti"
              "my file.Vti", "out.vti.bak"]
 
 
-def gen_vti_case(rng, malformed_ok=True):
-    dom = rand_domain(rng, want_good=rng.random() < 0.85)
+def gen_vti_case(rng, malformed_ok=True, large=False):
+    dom = rand_domain(rng, want_good=rng.random() < 0.85, large=large)
     nelx, nely, nelz, units = dom
     nel = nelx * nely * max(nelz, 1)
     nn = (nelx + 1) * (nely + 1) * (nelz + 1)
     dim = 2 if nelz == 0 else 3
     items, kinds = [], []
     used = set()
-    for _ in range(rng.randint(1, 5)):
+    for _ in range(rng.randint(1, 2) if large else rng.randint(1, 5)):
         name = rand_name(rng)
         if name in used:
             continue
@@ -397,8 +402,12 @@ def run_vti_stream(ctx, n):
     rng = ctx.rng
     reqs, impls, metas = [], [], []
     with TmpDir() as tmp:
-        for _ in range(n):
-            dom, items, kinds, fname, scale, origin = gen_vti_case(rng)
+        nlarge = 3 if ctx.quick else 12
+        for it in range(n):
+            large = it < nlarge
+            dom, items, kinds, fname, scale, origin = gen_vti_case(rng, large=large)
+            if large:
+                ctx.branch("vti.large_arrays")
             tmp.clear()
             impl = impl_vti(tmp, dom, items, fname, scale, origin)
             reqs.append(vti_request(dom, items, fname, scale, origin))
